@@ -124,3 +124,77 @@ func VerifC09Counting() {
 	}
 	zzverif.Observe("batches", int64(len(got)))
 }
+
+// VerifC09Deep: longer streams over two or three concrete keys (the key of every row is a forking
+// choice), N = 2: reaches states where several keys have already completed a window and fill their next
+// ones in an interleaved order.
+func VerifC09Deep() {
+	n := zzverif.Param("n", 2)
+	m := zzverif.Param("rows", 8)
+	nkeys := zzverif.Param("keys", 2)
+	names := []string{"a", "b", "c"}
+	var mu sync.Mutex
+	var got [][]int
+	cw := &CountingWindow{
+		config:      types.WindowConfig{Type: TypeCounting, GroupByKeys: []string{"k"}},
+		threshold:   n,
+		dataBuffer:  make([]types.Row, 0, n),
+		outputChan:  make(chan []types.Row, 100),
+		ctx:         context.Background(),
+		cancelFunc:  func() {},
+		triggerChan: make(chan types.Row, 100),
+		keyedBuffer: make(map[string][]types.Row),
+		keyedCount:  make(map[string]int),
+		lastActive:  make(map[string]time.Time),
+	}
+	cw.callback = func(rows []types.Row) {
+		var ids []int
+		for _, r := range rows {
+			ids = append(ids, r.Data.(map[string]any)["id"].(int))
+		}
+		mu.Lock()
+		got = append(got, ids)
+		mu.Unlock()
+	}
+	cw.Start()
+	keyOf := make([]int, m)
+	eager := verifPickW("eager", 2) == 1
+	for i := 0; i < m; i++ {
+		keyOf[i] = verifPickW("key"+string(rune('0'+i)), nkeys)
+		cw.Add(map[string]any{"id": i, "k": names[keyOf[i]]})
+		if eager {
+			zzverif.Quiesce()
+		}
+	}
+	zzverif.Quiesce()
+	mu.Lock()
+	defer mu.Unlock()
+	// reference: per key, chunks of n consecutive rows
+	var want [][]int
+	pending := make([][]int, nkeys)
+	for i := 0; i < m; i++ {
+		k := keyOf[i]
+		pending[k] = append(pending[k], i)
+		if len(pending[k]) == n {
+			want = append(want, pending[k])
+			pending[k] = nil
+		}
+	}
+	zzverif.Observe("batches", int64(len(got)))
+	zzverif.Assert(len(got) == len(want), "number-of-batches-is-number-of-complete-chunks")
+	if len(got) != len(want) {
+		return
+	}
+	for i := range want {
+		zzverif.Assert(len(got[i]) == n, "batch-has-exactly-n-rows")
+		same := len(got[i]) == len(want[i])
+		if same {
+			for j := range want[i] {
+				if got[i][j] != want[i][j] {
+					same = false
+				}
+			}
+		}
+		zzverif.Assert(same, "batch-is-the-next-complete-chunk-of-its-key")
+	}
+}
